@@ -109,11 +109,27 @@ def key_unit(unit):
         wrapped = cache.memoize(name=name, typed=typed, ignore=set(ignore))(f)
     groups = {}
     disk = cache.disk
+    split_seen = False
     for args, kw in signatures():
         key = wrapped.__cache_key__(*args, **dict(kw))
         stored = disk.put(key)
         groups.setdefault((bytes(stored[0]), stored[1]), []).append((args, kw))
         part['transitions'] += 1
+        if len(kw) > 1 and not split_seen:
+            # the same call with its keywords written in another order is
+            # the same call
+            other = wrapped.__cache_key__(*args, **dict(reversed(kw)))
+            if disk.put(other) != stored:
+                split_seen = True
+                part['violations'].append({
+                    'signature': {'clause': 'same-call-split',
+                                  'reason': 'keyword-order', 'typed': typed},
+                    'message': 'same-call-split: typed=%r ignore=%r: '
+                               'f(*%r, **%r) gets key %r but with the keywords '
+                               'in reverse order %r'
+                               % (typed, ignore, args, dict(kw), key, other),
+                    'replay': {'engine': 'GRID', 'module': 'props.c16',
+                               'unit': list(unit), 'generic': True}})
     part['executions'] = part['transitions']
     part['states'] = len(groups)
     shared = 0
@@ -402,9 +418,65 @@ class MemoWorld(World):
         return sig
 
 
+def results_unit(unit):
+    """A result that is None or otherwise falsy is a result: the second
+    identical call is served from the cache, for every decorator."""
+    part = {'states': 0, 'transitions': 0, 'executions': 0, 'violations': [],
+            'outcomes': {}, 'samples': [], 'caps': [], 'label': 'grid/results'}
+    for target in ('cache', 'fanout', 'index', 'django', 'django-v2',
+                   'stampede'):
+        for value in (None, 0, '', False, (), 0.0, b'', [], 'x' * 40000):
+            w = MemoWorld(target, None, False, ())
+            try:
+                w.f = None
+                runs = []
+
+                def g(*args, **kwargs):
+                    runs.append(args)
+                    if target == 'stampede':
+                        ENV.now += 0.25
+                    return value
+                g.__name__ = 'g'
+                import diskcache as dc
+                if target == 'stampede':
+                    deco = dc.memoize_stampede(w.cache, expire=10)
+                elif target == 'django-v2':
+                    deco = w.cache.memoize(version=2)
+                else:
+                    deco = w.cache.memoize()
+                wrapped = deco(g)
+                got = [call(wrapped, 1, a=2), call(wrapped, 1, a=2),
+                       call(wrapped, 1, a=2)]
+                part['transitions'] += 3
+                part['executions'] += 1
+                part['states'] += 1
+                ok = len(runs) == 1 and all(same(x, value) for x in got)
+                key = 'served' if ok else 'rerun'
+                part['outcomes'][key] = part['outcomes'].get(key, 0) + 1
+                if not ok:
+                    part['violations'].append({
+                        'signature': {'clause': 'result-not-served',
+                                      'target': target,
+                                      'value': type(value).__name__},
+                        'message': 'result-not-served: %s: a function '
+                                   'returning %r was called 3 times with the '
+                                   'same arguments: it ran %d time(s), the '
+                                   'calls returned %r'
+                                   % (target, value if len(repr(value)) < 40
+                                      else repr(value)[:30] + '...',
+                                      len(runs), [repr(x)[:30] for x in got]),
+                        'replay': {'engine': 'GRID', 'module': 'props.c16',
+                                   'unit': list(unit), 'generic': True}})
+            finally:
+                w.close()
+    return part
+
+
 def work(unit):
     if unit[0] == 'keys':
         return key_unit(unit)
+    if unit[0] == 'results':
+        return results_unit(unit)
     _, target, expire, typed, ignore, rnd, depth, seed, cap, chunk, nch = unit
     ab = [('call', a, k) for a, k in CALLS] + [('tick', 1)]
     ab = run.shuffled(ab, seed, 'memo')
@@ -439,6 +511,7 @@ def main(tier, seed):
             for ch in range(2):
                 units.append(('bfs', target, expire, typed, ignore, rnd,
                               d, seed, cap, ch, 2))
+    units.append(('results',))
     units = run.shuffled(units, seed)
     for part in run.pmap(work, units):
         rep.merge(part, part.get('label'))
